@@ -105,8 +105,14 @@ Definition exec_seq (skipping : bool) (txs : list tx) (s : script) : result :=
                        false: `if c.lastError != nil` (stores only over an error)
      v_return_latch  : the function ends with `return ec.Error()` (current code)
                        false: `return nil`                                     *)
-Record variant := { v_report_first : bool; v_return_latch : bool }.
-Definition current : variant := {| v_report_first := true; v_return_latch := true |}.
+(* A third knob states an ordering the proof depends on:
+     v_report_before_commit : a failing worker calls ec.Report(err) inside the
+                       loop, i.e. BEFORE wvs.Commit()                 (current code)
+                       false: the error is kept in a local, wvs.Commit() runs
+                       first and ec.Report(err) only afterwards                *)
+Record variant := { v_report_first : bool; v_return_latch : bool; v_report_before_commit : bool }.
+Definition current : variant :=
+  {| v_report_first := true; v_return_latch := true; v_report_before_commit := true |}.
 
 (* executionContext.Report(e) by worker i; the latch remembers who set it *)
 Definition report (v : variant) (latch : option nat) (i : nat) : option nat :=
@@ -120,10 +126,17 @@ Inductive wphase :=
 | WReport              (* failed; about to call ec.Report(err) *)
 | WCommit              (* left the loop; about to call wvs.Commit() *)
 | WRelease             (* committed; about to call ec.Done() *)
-| WFinished.
+| WFinished
+(* only reachable when v_report_before_commit = false: *)
+| WCommitF             (* failed, error kept in a local; about to call wvs.Commit() *)
+| WLateReport.         (* committed; about to call ec.Report(err) *)
+
+(* where a worker goes when its transaction has failed *)
+Definition fail_phase (v : variant) : wphase :=
+  if v_report_before_commit v then WReport else WCommitF.
 
 Definition committed (p : wphase) : bool :=
-  match p with WRelease | WFinished => true | _ => false end.
+  match p with WRelease | WFinished | WLateReport => true | _ => false end.
 
 (* the dispatching goroutine (the body of executeTxsConcurrent) *)
 Inductive dphase :=
@@ -187,9 +200,9 @@ Definition step_worker (v : variant) (s : script) (st : cstate) (i : nat) : opti
       match s i retry with
       | OOk r => Some (mkC (c_disp st) (c_tokens st) (c_latch st)
                            (upd (c_workers st) i WCommit) (upd (c_rcts st) i (Some (RExec r))))   (* *rb = rct; break *)
-      | OFatal => Some (set_worker st i WReport)
+      | OFatal => Some (set_worker st i (fail_phase v))
       | ORetry => if RetryCount <=? retry
-                  then Some (set_worker st i WReport)
+                  then Some (set_worker st i (fail_phase v))
                   else Some (set_worker st i (WRun (S retry)))
       end
   | Some WReport =>
@@ -198,6 +211,9 @@ Definition step_worker (v : variant) (s : script) (st : cstate) (i : nat) : opti
   | Some WRelease =>
       Some (mkC (c_disp st) (S (c_tokens st)) (c_latch st) (upd (c_workers st) i WFinished) (c_rcts st))
   | Some WFinished => None
+  | Some WCommitF => Some (set_worker st i WLateReport)
+  | Some WLateReport =>
+      Some (mkC (c_disp st) (c_tokens st) (report v (c_latch st) i) (upd (c_workers st) i WRelease) (c_rcts st))
   end.
 
 Definition step (v : variant) (n : nat) (s : script) (st : cstate) (a : actor) : option cstate :=
